@@ -237,7 +237,8 @@ def mk_args(case):
     from halmos.config import ConfigSource
 
     over = {"no_status": True}
-    if case.get("array_lengths") is not None:
+    # (an empty configuration is left to the default layer, as on a command line without --array-lengths)
+    if case.get("array_lengths"):
         over["array_lengths"] = {k: list(v) for k, v in case["array_lengths"].items()}
     if case.get("default_array_lengths"):
         over["default_array_lengths"] = list(case["default_array_lengths"])
@@ -255,8 +256,19 @@ def run_case(case, acc=None):
     abi = {sig: {"type": "function", "name": "f", "inputs": inputs}}
     finfo = FunctionInfo("T", "f", sig, "aabbccdd")
     unsupported = case.get("unsupported")
+    import copy
+
+    from halmos.config import default_config
+
+    before = copy.deepcopy(dict(args.array_lengths or {}))
     try:
         cd, dyn_params = mk_calldata(abi, finfo, args)
+        # building calldata must not write into the configuration it reads (the dict belongs to a
+        # config layer that other functions and contracts resolve their lengths from)
+        if dict(args.array_lengths or {}) != before:
+            return [(["config-mutated", "array_lengths"], f"{sig}: array_lengths was {before}, is {dict(args.array_lengths)} after mk_calldata")]
+        if dict(default_config().array_lengths or {}) != {}:
+            return [(["config-mutated", "default-layer"], f"{sig}: default_config().array_lengths is now {dict(default_config().array_lengths)}")]
     except NotImplementedError:
         if unsupported:
             return []
